@@ -29,11 +29,11 @@ META = dict(
          "coordinate NaN/None), aux inputs = regular 60 s axis, depth ramp and the data's missing pattern shifted by "
          "one; each state executes the real function twice on the same argument objects with a call on another series of the same length in between and checks: no exception, one "
          "flag per element, input shape, every flag in {1,2,3,4,9}, no masked flag, argument objects byte-identical "
-         "afterwards, second call identical, first returned array unchanged by later calls. (B) event graph: every history of depth<=d over a menu of 18 operations "
+         "afterwards, second call identical, first returned array unchanged by later calls, and a call after the caller refilled the same array objects in place (other values, shifted times) equals a fresh call on that content. (B) event graph: every history of depth<=d over a menu of 18 operations "
          "(one per function/mode, four of them on a second input set of another length and time axis) that share the same ndarray inputs, "
          "ClimatologyConfig objects and span lists; in "
-         "every state the shared objects' fingerprint, the functions' defaults and the modules' globals equal the "
-         "initial ones and each operation returns what it returns in the empty history. non-trivial = series contains "
+         "every state the shared objects' fingerprint equals the "
+         "initial one and each operation returns what it returns in the empty history. non-trivial = series contains "
          "a missing marker or has length<3 (A); history of depth>=2 (B)",
     bounds={"quick": {"series_len": 5, "track_len": 4, "history_depth": 3}, "thorough": {"series_len": 7, "track_len": 5, "history_depth": 4}},
     not_judged=["which flag is returned (C02-C14)", "n-dimensional inputs"],
@@ -122,12 +122,38 @@ def check_case(case):
     if xalt == list(x) and n:
         xalt = list(x[1:]) + [x[0]] if len(set(map(str, x))) > 1 else [(0 if G.SPECS[name]["kind"] == "position" else 3.0) if str(v) != "3.0" and v != 0 else (1 if G.SPECS[name]["kind"] == "position" else 0.0) for v in x]
     alt = alpha.call(G.build, name, cfg, xalt, how, case.get("zmode", "ramp"))
+    alt_vals = None
     if not isinstance(alt, alpha.Raised):
-        alpha.call(alt[0], **alt[1])
+        alt_vals, _, _ = alpha.flags_of(alpha.call(alt[0], **alt[1]))
+    refill = how == "nd" and alt_vals is not None and n and not isinstance(alt, alpha.Raised)
+    if refill:
+        # the caller refills the SAME array objects in place with the other series (times shifted by one step) and
+        # calls again: the flags must be those of a fresh call on that content (no cache keyed by object identity)
+        snap = {}
+        ok = True
+        for k, v in kw.items():
+            if isinstance(v, np.ndarray) and k in alt[1] and isinstance(alt[1][k], np.ndarray) and v.shape == alt[1][k].shape and v.dtype == alt[1][k].dtype:
+                snap[k] = v.copy()
+        fresh = dict(alt[1])
+        if "tinp" in kw and isinstance(kw["tinp"], np.ndarray):
+            snap["tinp"] = kw["tinp"].copy()
+            shifted = kw["tinp"] + (7 * np.arange(n)).astype("timedelta64[s]")
+            fresh["tinp"] = shifted.copy()
+        fresh_vals, _, _ = alpha.flags_of(alpha.call(alt[0], **fresh))
     out2 = alpha.call(fn, **kw)
     vals2, _, _ = alpha.flags_of(out2)
     if vals2 != vals:
         vs.append(V(f"{PROP}|{site}|symptom=second-call-differs", f"{site} returned different flags when called again (after a call on another series of the same length)", vals, vals2 if vals2 is not None else repr(out2)))
+    if refill:
+        for k in snap:
+            kw[k][...] = fresh[k]
+        out3 = alpha.call(fn, **kw)
+        vals3, _, _ = alpha.flags_of(out3)
+        for k, v in snap.items():
+            kw[k][...] = v
+        nexec_extra = 2
+        if vals3 != fresh_vals:
+            vs.append(V(f"{PROP}|{site}|symptom=stale-result-for-refilled-arrays", f"{site}: after the caller refilled the same array objects in place the flags are not those of the new content", fresh_vals, vals3 if vals3 is not None else repr(out3)))
     vals1_again, _, _ = alpha.flags_of(out1)
     if vals1_again != vals:
         vs.append(V(f"{PROP}|{site}|symptom=returned-array-changed-later", f"the flag array {site} returned was modified by a later call", vals, vals1_again))
@@ -273,8 +299,8 @@ def check_history(case):
             if v != base["objs"][k]:
                 vs.append(V(f"{PROP}|history|op={name}|symptom=shared-argument-modified:{k}",
                             f"{name} modified the shared {k}", None, None))
-        if module_state() != base["mod"]:
-            vs.append(V(f"{PROP}|history|op={name}|symptom=module-state-changed", f"{name} changed module-level state / defaults", None, None))
+        # (module-level state is not judged: an internal cache that never changes a result keeps the property;
+        #  what the property demands - history independent results, untouched arguments - is judged above)
         if vs:
             break
     return vs, len(hist) >= 2, tuple(obs), 0, len(hist)
